@@ -520,8 +520,8 @@ func build() {
 	fn("Date", "now", 0, "15.9.4.4", `(function(){var a=F("x");return typeof a==="number"&&a===a&&a-a===0&&a%1===0})()`)
 	constructorLink("Date", "15.9.5.1", 7)
 	const dp = "Date.prototype"
-	roundTrip := `(function(){var t=` + f64(T2-123) + `;return typeof F.call(new Date(t))==="string"&&Date.parse(F.call(new Date(t)))===t&&TH(function(){F.call({})})==="TypeError"})()`
-	strOnly := `typeof F.call(new Date(` + f64(T2) + `))==="string" && TH(function(){F.call({})})==="TypeError"`
+	roundTrip := `(function(){var t=` + f64(T2-123) + `;return typeof F.call(new Date(t))==="string"&&Date.parse(F.call(new Date(t)))===t&&TH(function(){F.call({toISOString:function(){return "x"}})})==="TypeError"})()`
+	strOnly := `typeof F.call(new Date(` + f64(T2) + `))==="string" && TH(function(){F.call({toISOString:function(){return "x"}})})==="TypeError"`
 	textual := []string{"toString", "toDateString", "toTimeString", "toLocaleString", "toLocaleDateString", "toLocaleTimeString", "toUTCString", "toISOString", "toGMTString"}
 	without := func(xs []string, x string) []string {
 		var o []string
@@ -577,7 +577,7 @@ func build() {
 	setterAt(T1, "setFullYear", 3, "15.9.5.40", "year", true, 98)
 	setterAt(T1, "setUTCFullYear", 3, "15.9.5.41", "year", false, 98)
 	fn(dp, "toUTCString", 0, "15.9.5.42", roundTrip, without(parseable, "toUTCString")...)
-	fn(dp, "toISOString", 0, "15.9.5.43", `F.call(new Date(`+f64(T2)+`))==="2001-07-31T22:40:50.123Z" && TH(function(){F.call({})})==="TypeError"`).
+	fn(dp, "toISOString", 0, "15.9.5.43", `F.call(new Date(`+f64(T2)+`))==="2001-07-31T22:40:50.123Z" && TH(function(){F.call({toISOString:function(){return "x"}})})==="TypeError"`).
 		also(`RT(function(){return F.call(new Date(0/0))})`, `s:"throw:RangeError"`)
 	fn(dp, "toJSON", 1, "15.9.5.44", `F.call(new Date(`+f64(T2)+`))==="2001-07-31T22:40:50.123Z" && F.call(new Date(0/0))===null`).
 		also(`RT(function(){return F.call({toISOString:function(){return 42}})})`, `n:42`) // generic: steps 2-6
